@@ -70,9 +70,9 @@ def dimension_strings():
 # the physical model for the re-expression test: (keyword, record layout, [(dimension as measure, SI value)])
 MODEL = [
     ("EQUIL", ["length", "pressure", "length", "pressure", "length", "pressure"], [2000.0, 2.5e7, 2100.0, 1.0e4, 1900.0, 0.0]),
-    ("DENSITY", ["density", "density", "density"], [850.0, 1020.0, 0.9]),
+    ("DENSITY", [None, "density", "density"], [600.0, 1020.0, 0.9]),          # (oil density defaulted)
     ("PVTW", ["pressure", "water_formation_volume_factor", None, "viscosity", None], [2.0e7, 1.02, 4.0e-10, 3.0e-4, 0.0]),
-    ("ROCK", ["pressure", None], [2.0e7, 5.0e-10]),
+    ("ROCK", [None, None], [1.0132e5, 0.0]),                                    # (reference pressure defaulted)
     ("TSTEP", ["time", "time"], [86400.0 * 3, 86400.0 * 0.5]),
 ]
 
@@ -169,13 +169,27 @@ def run(opts):
     rc, out, _ = vf.sh([dexe, spath, dpath, os.path.join(chk.rundir, "w")], timeout=3000)
     if rc != 0:
         raise vf.ToolingError("harness deckparse failed rc=%d: %s" % (rc, out[-2000:]))
+    defaults = {}
     for ev in vf.read_ndjson(dpath):
         if ev["res"] != "ok":
             chk.violation({"kind": "unit-deck-error", "sys": ev["id"], "script": scripts[SYSTEMS.index(ev["id"])]}, "model deck in %s units rejected: %s" % (ev["id"], ev.get("what")))
             continue
+        # every double entry - given or defaulted - converts to SI, back to deck units and to SI again without change
+        for k in ev["deck"]:
+            for rec in k["recs"]:
+                for item in rec:
+                    for e in item["e"]:
+                        if e.get("again") is False:
+                            chk.violation({"kind": "unit-deck-again", "sys": ev["id"], "keyword": k["name"], "item": item["name"], "script": scripts[SYSTEMS.index(ev["id"])]},
+                                          "%s %s item %s: deck units -> SI -> deck units -> SI does not return the same values" % (ev["id"], k["name"], item["name"]))
         for (kw, ms, vals), k in zip(MODEL, ev["deck"][3:]):
             for n, (m, v) in enumerate(zip(ms, vals)):
                 if m is None:
+                    # a defaulted entry with a keyword default is the same physical quantity in every unit system
+                    item = k["recs"][0][n]
+                    e = item["e"][0] if item["e"] else {}
+                    if e.get("si") not in (None, "none"):
+                        defaults.setdefault((kw, item["name"]), {})[ev["id"]] = float.fromhex(e["si"])
                     continue
                 item = k["recs"][0][n] if kw != "TSTEP" else k["recs"][0][0]
                 e = item["e"][0 if kw != "TSTEP" else n]
@@ -184,6 +198,13 @@ def run(opts):
                 if si is None or not close(si, v, 1e-7 if m in ("permeability",) else 1e-12) and abs(si - v) > 1e-12 * max(1.0, abs(v)):
                     chk.violation({"kind": "unit-deck-si", "sys": ev["id"], "keyword": kw, "item": item["name"], "script": scripts[SYSTEMS.index(ev["id"])]},
                                   "%s %s item %s: SI value %r, the model's %r" % (ev["id"], kw, item["name"], si, v))
+    for (kw, name), bysys in sorted(defaults.items()):
+        vals = sorted(bysys.values())
+        chk.evaluations += 1
+        if vals and abs(vals[-1] - vals[0]) > 1e-9 * max(1.0, abs(vals[0])):
+            chk.violation({"kind": "unit-deck-default", "keyword": kw, "item": name, "values": bysys, "script": scripts[0]},
+                          "%s item %s defaulted: SI value differs between unit systems: %r" % (kw, name, bysys))
+    chk.notes["defaulted_items_compared_across_unit_systems"] = len(defaults)
     chk.distinct = len(run_cases)
     chk.notes["dimension_strings"] = len(dims)
     chk.notes["dimension_strings_with_names_outside_the_specification"] = sorted(unknown)
